@@ -1105,3 +1105,9 @@ V("sp5-c20-normal-sd-var", "C20", "silent", NO, "def normal(mean=0, var=1):\n   
 # normal distribution
 V("sp5-c06-mse-local", "C06", "silent", ND, "        cov = self.covariance\n", "        cov = np.asarray(self.covariance)\n", what="asarray view")
 V("sp5-c05-marginal-ix", "C05", "silent", ND, "        covariance = utils.matrix_block(self.covariance, X, X)\n        return NormalDistribution(mean, covariance)\n", "        covariance = self.covariance[np.ix_(X, X)]\n        return NormalDistribution(mean, covariance)\n", what="np.ix_ block")
+
+# ------------------------------------------------------------------------------- several whole-tree transformations at once (silent for every property)
+for _i in [1, 2, 3, 4, 5, 6, 7, 8, 10, 11, 12, 13, 14, 15, 16, 17, 18, 19, 20]:
+    VARIANTS.append(dict(id="combined-transforms-c%02d" % _i, prop="C%02d" % _i, expect="silent", rule=None,
+                         edits=[("@kwargs_calls",), ("@early_exit",), ("@accept_lists",), ("@numpy_alias",), ("@strip_docs_annotate",), ("@logging",)],
+                         what="keyword calls + early exits + `import numpy` + annotations + logging + list-accepting prologues, all at once"))
